@@ -211,6 +211,11 @@ def sarg(a, env):
     if m and m.group(1) in env: return "((u32 %s : Nat) : Int)" % env[m.group(1)]
     m = re.fullmatch(r"([a-z_]+) as i32", a)
     if m and m.group(1) in env: return env[m.group(1)]                       # i64 -> i32 under the guard that it fits: same value
+    if a == "pc as i64": return "(pc : Int)"
+    if a == "(pc + 1) as isize": return "((pc : Int) + 1)"
+    if a == "imm as i64": return env.get("imm", "imm")
+    m = re.fullmatch(r"if ([a-z0-9_]+) \{ (\d+) \} else \{ (\d+) \}", a)
+    if m and env.get(m.group(1), "").startswith("P:"): return "(if %s then %s else %s)" % (env[m.group(1)][2:], m.group(2), m.group(3))
     if a == "target as i64": return "(if target < 2 ^ 63 then (target : Int) else (target : Int) - 2 ^ 64)"
     if a == "ebpf::STACK_SIZE as i32": return str(C["STACK_SIZE"])
     if a == "TARGET_PC_EXIT": return "targetPcExit"
@@ -226,6 +231,62 @@ def scond(c, env):
     m = re.fullmatch(r"map_register\((\d+)\) != ([A-Z0-9]+)", c)
     if m and m.group(2) in REGS: return "mapRegSrc %s ≠ %s" % m.groups()
     raise SyntaxError("condition `%s`" % c)
+def bexpr(c, env):
+    """boolean expression over the local flags: `||`, `&&`, `!`, parentheses, `x == 0`, `x != REG`"""
+    toks = re.findall(r"\|\||&&|!=|==|!|\(|\)|[A-Za-z_][A-Za-z0-9_]*|[0-9]+", c)
+    pos = [0]
+    def peek(): return toks[pos[0]] if pos[0] < len(toks) else None
+    def eat(): pos[0] += 1; return toks[pos[0] - 1]
+    def p_or():
+        a = p_and()
+        while peek() == "||": eat(); a = "(%s ∨ %s)" % (a, p_and())
+        return a
+    def p_and():
+        a = p_un()
+        while peek() == "&&": eat(); a = "(%s ∧ %s)" % (a, p_un())
+        return a
+    def p_un():
+        if peek() == "!": eat(); return "¬ %s" % p_un()
+        if peek() == "(":
+            eat(); a = p_or()
+            if eat() != ")": raise SyntaxError("paren")
+            return a
+        t = eat()
+        if t in env and env[t].startswith("P:"):
+            return env[t][2:]
+        if t in env or t in REGS:
+            lhs = env.get(t, t)
+            op = eat(); r = eat()
+            r = env.get(r, r) if not re.fullmatch(r"[0-9]+", r) else r
+            return "%s %s %s" % (lhs, "=" if op == "==" else "≠", r)
+        raise SyntaxError("condition token `%s`" % t)
+    a = p_or()
+    if pos[0] != len(toks): raise SyntaxError("condition `%s`" % c)
+    return a
+def seq_fn_with_returns(body, env, o, ind):
+    """a function body with `let flag = …;` definitions and early `return;`s: `if c { A; return; } rest` becomes `if c then A else rest`"""
+    body = " ".join(body.split())
+    # flag definitions
+    while True:
+        m = re.match(r"let ([a-z0-9_]+) = \(opc & ebpf::([A-Z_]+)\) == (?:\(ebpf::([A-Z0-9_]+) & ebpf::([A-Z_]+)\)|ebpf::([A-Z0-9_]+)); ", body)
+        if not m: break
+        mask = C[m.group(2)]
+        if m.group(3):
+            if m.group(4) != m.group(2): raise SyntaxError("mask mismatch")
+            v = C[m.group(3)] & mask
+        else: v = C[m.group(5)]
+        o.emit(ind, "let %s := (opc &&& %d) = %d" % (camel(m.group(1)), mask, v)); env[m.group(1)] = "P:" + camel(m.group(1)); body = body[m.end():]
+    def rest(b, ind):
+        b = b.strip()
+        m = re.match(r"if ([^{]*)\{", b)
+        if m:
+            e1 = balanced(b, m.end() - 1); blk = b[m.end():e1 - 1].strip()
+            if blk.endswith("return;"):
+                o.emit(ind, "if %s then" % bexpr(m.group(1).strip(), env)); o2 = Out(); seq_block(blk[:-len("return;")], env, o2, ind + 2)
+                o.lines += o2.lines; o.emit(ind + 2, "e"); o.emit(ind, "else"); rest(b[e1:], ind + 2); return
+        seq_block(b, env, o, ind); o.emit(ind, "e")
+    rest(body, ind)
+
 def seq_block(body, env, o, ind):
     """statements -> `let e := …` lines; the block's value is `e`"""
     body = body.strip()
@@ -252,11 +313,15 @@ def seq_block(body, env, o, ind):
                 o.emit(ind, "let e := { e with exitAnchor := some e.code.size }"); continue
             args = [sarg(a, env) for a in split_top(m.group(2), ",")] if m.group(2) else []
             o.emit(ind, "let e := %s e %s" % (camel(m.group(1)), " ".join(args))); continue
+        m = re.fullmatch(r"let offset = match self\.basix_rex_would_set_bits\(0, dst, dst\) \{ true => (\d+) \+ (\d+), false => (\d+) \+ (\d+), \}", s_)
+        if m: env["offset"] = "(if rexWouldSetBits 0 dst dst then %s + %s else %s + %s)" % m.groups(); continue
         m = re.match(r"if ([^{]*)\{", s_)
         if m:
             e1 = balanced(s_, m.end() - 1); then = s_[m.end():e1 - 1]
             m2 = re.match(r"\s*else \{", s_[e1:])
-            o.emit(ind, "let e := if %s then" % scond(m.group(1), env)); seq_block(then, env, o, ind + 4); o.emit(ind + 4, "e")
+            try: cnd = scond(m.group(1), env)
+            except SyntaxError: cnd = bexpr(m.group(1).strip(), env)
+            o.emit(ind, "let e := if %s then" % cnd); seq_block(then, env, o, ind + 4); o.emit(ind + 4, "e")
             o.emit(ind + 2, "else")
             if m2:
                 e2 = balanced(s_, e1 + m2.end() - 1); seq_block(s_[e1 + m2.end():e2 - 1], env, o, ind + 4)
@@ -292,6 +357,13 @@ try:
             lines += ["/-- `%s` -/" % fn, "def %sSrc (e : Em) %s : Em :=" % (camel(fn), sig)] + o.lines + ["  e", ""]; okf.append("true")
         except Exception as ex:
             problems.append("%s: %s" % (fn, ex)); okf.append("false"); lines += ["def %sSrc (e : Em) %s : Em := e" % (camel(fn), sig), ""]
+    try:
+        params, body = fn_body("emit_muldivmod")
+        env = {"pc": "pc", "opc": "opc", "src": "src", "dst": "dst", "imm": "imm"}
+        o = Out(); seq_fn_with_returns(body, env, o, 2)
+        lines += ["/-- `emit_muldivmod` -/", "def emitMuldivmodSrc (e : Em) (pc : Nat) (opc src dst : Nat) (imm : Int) : Em :="] + o.lines + [""]; okf.append("true")
+    except Exception as ex:
+        problems.append("emit_muldivmod: %s" % ex); okf.append("false"); lines += ["def emitMuldivmodSrc (e : Em) (pc : Nat) (opc src dst : Nat) (imm : Int) : Em := e", ""]
     # prologue: the statements of jit_compile before `self.pc_locs = …`; epilogue: after the loop up to `Ok(())`
     jm = re.search(r"fn jit_compile\(", txt); jb0 = txt.index("{", balanced(txt, jm.end() - 1, "(", ")")); jbody = txt[jb0 + 1:balanced(txt, jb0) - 1]
     pro = jbody[:jbody.index("self.pc_locs = vec![0; prog.len() / ebpf::INSN_SIZE + 1];")]
@@ -307,6 +379,59 @@ try:
     lines += ["def seqFnsSrcOk : Bool := %s" % " && ".join(okf), ""]
 except Exception as ex:
     problems.append("sequence functions: %s" % ex); lines += ["def seqFnsSrcOk : Bool := false", ""]
+# ---------------------------------------------------------------- the byte-level primitives: the function's text is matched as a whole against its shape and
+# the constants (opcode bytes, masks, field positions) are extracted into a definition of the same shape
+def flat_body(name):
+    _params, b = fn_body(name); return " ".join(b.split())
+def n(x): return str(int(x, 0))
+PRIMS = []
+def prim(name, regex, build):
+    try:
+        b = flat_body(name); m = re.fullmatch(regex, b)
+        if not m: raise SyntaxError("shape of %s: %s" % (name, b[:90]))
+        lines.extend(build(m)); PRIMS.append("true")
+    except Exception as ex:
+        problems.append("%s: %s" % (name, ex)); PRIMS.append("false")
+H = r"(0x[0-9a-fA-F]+|0b[01]+|[0-9]+)"
+prim("emit_modrm", r"assert_eq!\(\(modrm \| 0xc0\), 0xc0\); self\.emit1\(mem, \(modrm & " + H + r"\) \| \(\(r & " + H + r"\) << " + H + r"\) \| \(m & " + H + r"\)\);",
+     lambda m: ["/-- `emit_modrm` -/", "def emitModrmSrc (e : Em) (modrm r m : Nat) : Em := emit1 e ((modrm &&& %s) ||| ((r &&& %s) <<< %s) ||| (m &&& %s))" % tuple(n(x) for x in m.groups()), ""])
+prim("emit_modrm_and_displacement",
+     r"if d == 0 && \(m & " + H + r"\) != RBP \{ self\.emit_modrm\(mem, " + H + r", r, m\); \} else if \((-?\d+)\.\.=(-?\d+)\)\.contains\(&d\) \{ self\.emit_modrm\(mem, " + H + r", r, m\); self\.emit1\(mem, d as u8\); \} "
+     r"else \{ self\.emit_modrm\(mem, " + H + r", r, m\); self\.emit4\(mem, d as u32\); \}",
+     lambda m: ["/-- `emit_modrm_and_displacement` -/", "def emitModrmAndDisplacementSrc (e : Em) (r m : Nat) (d : Int) : Em :=",
+                "  if d = 0 ∧ (m &&& %s) ≠ RBP then emitModrm e %s r m" % (n(m.group(1)), n(m.group(2))),
+                "  else if %s ≤ d ∧ d ≤ %s then emit1 (emitModrm e %s r m) (u8 d)" % (m.group(3), m.group(4), n(m.group(5))),
+                "  else emit4 (emitModrm e %s r m) (u32 d)" % n(m.group(6)), ""])
+prim("basix_rex_would_set_bits", r"w != 0 \|\| \(src & " + H + r"\) != 0 \|\| \(dst & " + H + r"\) != 0",
+     lambda m: ["/-- `basix_rex_would_set_bits` -/", "def rexWouldSetBitsSrc (w src dst : Nat) : Bool := w ≠ 0 || (src &&& %s) ≠ 0 || (dst &&& %s) ≠ 0" % (n(m.group(1)), n(m.group(2))), ""])
+prim("emit_rex", r"assert_eq!\(\(w \| 1\), 1\); assert_eq!\(\(r \| 1\), 1\); assert_eq!\(\(x \| 1\), 1\); assert_eq!\(\(b \| 1\), 1\); self\.emit1\(mem, " + H + r" \| \(w << " + H + r"\) \| \(r << " + H + r"\) \| \(x << " + H + r"\) \| b\);",
+     lambda m: ["/-- `emit_rex` (its four assertions: every field is 0 or 1) -/", "def emitRexSrc (e : Em) (w r x b : Nat) : Em := emit1 e (%s ||| (w <<< %s) ||| (r <<< %s) ||| (x <<< %s) ||| b)" % tuple(n(x) for x in m.groups()), ""])
+prim("emit_basic_rex", r"if self\.basix_rex_would_set_bits\(w, src, dst\) \{ let is_masked = \|val, mask\| match val & mask \{ 0 => 0, _ => 1, \}; self\.emit_rex\(mem, w, is_masked\(src, " + H + r"\), 0, is_masked\(dst, " + H + r"\)\); \}",
+     lambda m: ["/-- `emit_basic_rex` -/", "def emitBasicRexSrc (e : Em) (w src dst : Nat) : Em :=",
+                "  if rexWouldSetBits w src dst then emitRex e w (if src &&& %s = 0 then 0 else 1) 0 (if dst &&& %s = 0 then 0 else 1) else e" % (n(m.group(1)), n(m.group(2))), ""])
+prim("emit_load", r"let data = match size \{ OperandSize::S64 => 1, _ => 0, \}; self\.emit_basic_rex\(mem, data, dst, src\); match size \{ OperandSize::S8 => \{ self\.emit1\(mem, " + H + r"\); self\.emit1\(mem, " + H + r"\); \} "
+     r"OperandSize::S16 => \{ self\.emit1\(mem, " + H + r"\); self\.emit1\(mem, " + H + r"\); \} OperandSize::S32 \| OperandSize::S64 => \{ self\.emit1\(mem, " + H + r"\); \} \} self\.emit_modrm_and_displacement\(mem, dst, src, offset\);",
+     lambda m: ["/-- `emit_load` (size in bits) -/", "def emitLoadSrc (e : Em) (size src dst : Nat) (off : Int) : Em :=", "  let e := emitBasicRex e (if size = 64 then 1 else 0) dst src",
+                "  let e := if size = 8 then emit1 (emit1 e %s) %s else if size = 16 then emit1 (emit1 e %s) %s else emit1 e %s" % tuple(n(x) for x in m.groups()),
+                "  emitModrmAndDisplacement e dst src off", ""])
+prim("emit_store", r"match size \{ OperandSize::S16 => self\.emit1\(mem, " + H + r"\), _ => \{\}, \}; let \(is_s8, is_u64, rexw\) = match size \{ OperandSize::S8 => \(true, false, 0\), OperandSize::S64 => \(false, true, 1\), _ => \(false, false, 0\), \}; "
+     r"if is_u64 \|\| \(src & " + H + r"\) != 0 \|\| \(dst & " + H + r"\) != 0 \|\| is_s8 \{ let is_masked = \| val, mask \| \{ match val & mask \{ 0 => 0, _ => 1 \} \}; self\.emit_rex\(mem, rexw, is_masked\(src, " + H + r"\), 0, is_masked\(dst, " + H + r"\)\); \} "
+     r"match size \{ OperandSize::S8 => self\.emit1\(mem, " + H + r"\), _ => self\.emit1\(mem, " + H + r"\), \}; self\.emit_modrm_and_displacement\(mem, src, dst, offset\);",
+     lambda m: ["/-- `emit_store` (size in bits) -/", "def emitStoreSrc (e : Em) (size src dst : Nat) (off : Int) : Em :=", "  let e := if size = 16 then emit1 e %s else e" % n(m.group(1)),
+                "  let e := if size = 64 ∨ (src &&& %s) ≠ 0 ∨ (dst &&& %s) ≠ 0 ∨ size = 8 then emitRex e (if size = 64 then 1 else 0) (if src &&& %s = 0 then 0 else 1) 0 (if dst &&& %s = 0 then 0 else 1) else e" % tuple(n(m.group(k)) for k in (2, 3, 4, 5)),
+                "  let e := emit1 e (if size = 8 then %s else %s)" % (n(m.group(6)), n(m.group(7))), "  emitModrmAndDisplacement e src dst off", ""])
+prim("emit_store_imm32", r"match size \{ OperandSize::S16 => self\.emit1\(mem, " + H + r"\), _ => \{\}, \}; match size \{ OperandSize::S64 => self\.emit_basic_rex\(mem, 1, 0, dst\), _ => self\.emit_basic_rex\(mem, 0, 0, dst\), \}; "
+     r"match size \{ OperandSize::S8 => self\.emit1\(mem, " + H + r"\), _ => self\.emit1\(mem, " + H + r"\), \}; self\.emit_modrm_and_displacement\(mem, 0, dst, offset\); "
+     r"match size \{ OperandSize::S8 => self\.emit1\(mem, imm as u8\), OperandSize::S16 => self\.emit2\(mem, imm as u16\), _ => self\.emit4\(mem, imm as u32\), \};",
+     lambda m: ["/-- `emit_store_imm32` (size in bits) -/", "def emitStoreImm32Src (e : Em) (size dst : Nat) (off : Int) (imm : Int) : Em :=", "  let e := if size = 16 then emit1 e %s else e" % n(m.group(1)),
+                "  let e := emitBasicRex e (if size = 64 then 1 else 0) 0 dst", "  let e := emit1 e (if size = 8 then %s else %s)" % (n(m.group(2)), n(m.group(3))), "  let e := emitModrmAndDisplacement e 0 dst off",
+                "  if size = 8 then emit1 e (u8 imm) else if size = 16 then emit2 e ((imm % 2 ^ 16).toNat) else emit4 e (u32 imm)", ""])
+prim("emit_direct_jcc", r"self\.emit1\(mem, " + H + r"\); self\.emit1\(mem, code\); emit_bytes!\(mem, offset, u32\);",
+     lambda m: ["/-- `emit_direct_jcc` -/", "def emitDirectJccSrc (e : Em) (code off : Nat) : Em := emit4 (emit1 (emit1 e %s) code) off" % n(m.group(1)), ""])
+prim("emit_jump_offset", r"let jump = Jump \{ offset_loc: mem\.offset, target_pc, \}; self\.jumps\.push\(jump\); self\.emit4\(mem, 0\);",
+     lambda m: ["/-- `emit_jump_offset`: the location of the 32-bit field is recorded with its target, the field is emitted as 0 -/",
+                "def emitJumpOffsetSrc (e : Em) (targetPc : Int) : Em := emit4 { e with jumps := e.jumps.push (e.code.size, targetPc) } 0", ""])
+lines += ["def primsSrcOk : Bool := %s" % " && ".join(PRIMS), ""]
 for p in problems: lines.append("/- not translated: %s -/" % p.replace("-/", "- /"))
 lines += ["end Rbpf.Generated.Jit", ""]
 new = "\n".join(lines)
